@@ -1,6 +1,7 @@
 """C07 -- close() then join() drains all work and leaves no processes behind."""
-from checks import shutdown
+from checks import feedcommon, shutdown
 
 
 def main(ctx):
+    feedcommon.run(ctx, 'C07')
     shutdown.run(ctx, 'C07')
